@@ -38,7 +38,7 @@ COMPONENTS = {"real": ["Arbiter.run/murder_workers/kill_worker/reap_workers/mana
 
 def make_worker_case(index, rng, tier):
     timeout = rng.choice([1, 2, 3, 4, 6])
-    kind = rng.choice(["sync", "gthread", "gevent"])
+    kind = rng.choice(["sync", "gthread", "gevent", "eventlet"])
     clients = []
     t = 0.1
     for i in range(rng.randrange(0, 7)):
